@@ -177,19 +177,132 @@ Proof.
 Qed.
 Print Assumptions cfi_reachable.
 
-(* ... hence a REACHABLE state can only be stuck for a height / handler-discipline reason, or at the descriptors of a Closure *)
+Ltac ben2 := left; unfold benign; tauto.
+
+Lemma step_reasons2 P F g s ii nx :
+  models P F g -> decode P F (pc s) = Some (ii, nx) -> operand_ok g ii ->
+  (is_jump16 (iop ii) = true -> exists b, byte_at (code F) (nx + ia ii)%N = Some b) ->
+  (iop ii = OpLoop -> (ia ii <= nx)%N) ->
+  (iop ii = OpJumpFinally -> byte_at (code F) nx = Some 57%N) ->
+  forall r, step false P F s = Stuck r ->
+    benign r \/
+    (iop ii = OpJumpFinally /\ exists hd tl, handlers s = hd :: tl /\ byte_at (code F) (finally_pc hd) = None).
+Proof.
+  intros HM Hd (Os & Oc & Ocl & Ou & Od) HJ HL HF r H.
+  unfold step, step_at in H. fold (decode P F (pc s)) in H. rewrite Hd in H.
+  destruct (STACK_MAX <? h s)%N. { inversion H; subst. ben2. }
+  destruct (simple_effect F ii (h s)) as [e|] eqn:Es.
+  - unfold step_simple in H.
+    destruct (e_chk e) as [r0|] eqn:Ec.
+    { inversion H; subst. destruct (simple_effect_chk _ _ _ _ _ Es Ec) as [->|[->|(-> & Hu & Hlt)]]; try ben2.
+      exfalso. specialize (Ou Hu). rewrite (m_upv _ _ _ HM) in Hlt. apply N.ltb_ge in Hlt. lia. }
+    pose proof (simple_effect_const _ _ _ _ Es) as Hcst.
+    rewrite (const_ok_models P F g (e_const e) (ia ii) HM) in H.
+    2:{ destruct (e_const e); auto. }
+    destruct (negb (e_need e <=? h s)%N). { inversion H; subst. ben2. }
+    destruct (negb (captured_below (captured s) (h s - e_pops e))). { inversion H; subst. ben2. }
+    apply rapp_next_reason in H. destruct (e_throw e); [|discriminate].
+    apply exc_edge_reason in H. subst. ben2.
+  - unfold in_code in H.
+    destruct (iop ii) eqn:Eo; try (unfold simple_effect in Es; rewrite Eo in Es; discriminate).
+    + (* Jump *) destruct (HJ eq_refl) as [b Hb]. rewrite Hb in H. discriminate.
+    + (* JumpIfFalse *) destruct (h s =? 0)%N. { inversion H; subst. ben2. }
+      destruct (HJ eq_refl) as [b Hb]. rewrite Hb in H. discriminate.
+    + (* JumpIfStopIter *) destruct (h s =? 0)%N. { inversion H; subst. ben2. }
+      destruct (HJ eq_refl) as [b Hb]. rewrite Hb in H. discriminate.
+    + (* Loop *) specialize (HL eq_refl). apply N.leb_le in HL. rewrite HL in H. discriminate.
+    + (* JumpFinally *) destruct (h s =? 0)%N. { inversion H; subst. ben2. }
+      destruct (handlers s) as [|hd tl] eqn:Ehs. { inversion H; subst. ben2. }
+      rewrite (HF eq_refl) in H.
+      destruct (negb (hheight hd <=? h s - 1)%N). { inversion H; subst. ben2. }
+      destruct (byte_at (code F) (finally_pc hd)) eqn:Eb; [discriminate|].
+      right. split; auto. exists hd, tl. split; auto.
+    + (* EndFinally *)
+      match type of H with rapp ?q ?rt = _ => destruct q eqn:Eq; [destruct (exc s); discriminate|] end.
+      apply rapp_next_reason in H.
+      destruct (exc s); try discriminate.
+      all: destruct (h s =? 0)%N; [inversion H; subst; ben2|].
+      all: destruct (exc_edge s (h s - 1)) eqn:Ee; [|discriminate].
+      all: inversion H; subst; apply exc_edge_reason in Ee; subst; ben2.
+    + (* PopExcHandler *) destruct (handlers s); [inversion H; subst; ben2|discriminate].
+    + (* Throw *) destruct (h s =? 0)%N. { inversion H; subst. ben2. }
+      apply exc_edge_reason in H. subst. ben2.
+    + (* Closure *)
+      destruct (uvs_ok F (h s) (iuvs ii)) as [r0|] eqn:Eu; [|discriminate]. inversion H; subst.
+      assert (Hr : r = RLocalOutOfRange).
+      { specialize (Od eq_refl). clear -Eu Od HM. induction (iuvs ii) as [|[[] x] l IH]; simpl in Eu. discriminate.
+        - inversion Od; subst. destruct (x <=? h s)%N; auto. inversion Eu; auto.
+        - inversion Od as [|? ? H1 H2]; subst. simpl in H1. rewrite (m_upv _ _ _ HM) in Eu.
+          specialize (H1 eq_refl). apply N.ltb_lt in H1. rewrite H1 in Eu. auto. }
+      subst. ben2.
+    + (* CloseUpvalue *) destruct (arity F <? h s)%N; [discriminate|]. inversion H; subst. ben2.
+    + (* Return *) destruct (h s =? 0)%N. { inversion H; subst. ben2. }
+      destruct (handlers s), (pending s); try discriminate; inversion H; subst; ben2.
+Qed.
+
+
+(* ... hence a REACHABLE state can only be stuck for a stack-height / handler-discipline reason *)
 Theorem reachable_stuck_reasons (p : lprogram) (f g : func) P F :
   compile_program p = COk f -> subfunc g f -> models P F g ->
-  forall s, reachable false P F s -> forall r, step false P F s = Stuck r ->
-    benign r \/
-    (exists ii nx, decode P F (pc s) = Some (ii, nx) /\ iop ii = OpClosure /\ (r = RUpvalueOutOfRange \/ r = RLocalOutOfRange)).
+  forall s, reachable false P F s -> forall r, step false P F s = Stuck r -> benign r.
 Proof.
   intros H Hg HM s Hr r Hst. pose proof (code_bytes_in_range _ _ _ H Hg) as Hlt.
   destruct (ends_in_return _ _ _ H Hg) as (is_ & Hc & Hok & HJ & (is0 & Hl) & FT & Hjf & Hh).
   assert (Hcfi : cfi is_ s).
-  { destruct (cfi_reachable p f g P F H Hg HM) as (is2 & Hc2 & Hall).
-    assert (is2 = is_).
-    { clear -Hc Hc2 Hok. admit. }
-    subst is2. auto. }
-  admit.
-Admitted.
+  { clear Hst. induction Hr as [|s l s' Hr IH Hs Hin].
+    - split; [|split]; simpl; auto; [|discriminate].
+      exists 0. split; [|reflexivity]. rewrite Hl, app_length. simpl. lia.
+    - unfold succs, succs_at in Hs. fold (step false P F s) in Hs.
+      destruct (step false P F s) as [r0|l0] eqn:Es; [discriminate|]. inversion Hs; subst l0.
+      pose proof (cfi_step P F g is_ HM Hlt Hc Hok HJ Hh Hjf FT s l IH Es) as Hall.
+      rewrite Forall_forall in Hall. auto. }
+  destruct Hcfi as (Hpc & Hhs & Hpd). destruct HJ as [J1 J2].
+  assert (D : forall n, sbnd is_ n -> exists b, byte_at (code F) (N.of_nat n) = Some b).
+  { intros n Hn'. apply sbnd_split in Hn'. destruct Hn' as (pre' & i' & post' & E' & <-).
+    eapply decode_get. eapply decode_at_boundary; eauto. }
+  pose proof Hpc as Hpc'. apply sbnd_split in Hpc'. destruct Hpc' as (pre & i & post & E & Hq).
+  assert (Hpcs : pc s = N.of_nat (length (flat pre))) by (rewrite Hq, N2Nat.id; reflexivity).
+  pose proof (decode_at_boundary P F g is_ pre i post HM Hlt Hc Hok E) as Hd. rewrite <- Hpcs in Hd.
+  assert (Hi : iok (f_consts g) (N.to_nat (f_upvalues g)) i).
+  { rewrite E in Hok. apply Forall_app in Hok. destruct Hok as [_ Hok]. inversion Hok; auto. }
+  assert (Hn : nth_error is_ (length pre) = Some i).
+  { rewrite E. rewrite nth_error_app2, Nat.sub_diag by lia. reflexivity. }
+  destruct (step_reasons2 P F g s _ _ HM Hd (iok_operand_ok g i Hi)) with (r := r) as [Hb|[Hjfi (hd & tl & Ehs & Eb)]]; auto.
+  - rewrite iop_instr_of. intros Hj. destruct i as [o args]. simpl in Hj.
+    assert (exists a b, args = [a; b]) as (a & b & ->).
+    { unfold iok in Hi. simpl in Hi. destruct o; try discriminate; simpl in Hi; destruct Hi as (a & b & -> & _); eauto. }
+    specialize (J1 _ _ _ _ Hn Hj). rewrite E in J1 at 2. rewrite pos_split in J1.
+    destruct (D _ J1) as [b0 Hb]. exists b0. rewrite <- Hb. f_equal.
+    unfold instr_of. destruct o; try discriminate; simpl; unfold u16; lia.
+  - rewrite iop_instr_of. intros Hlp. destruct i as [o args]. simpl in Hlp. subst o.
+    assert (exists a b, args = [a; b]) as (a & b & ->).
+    { unfold iok in Hi. simpl in Hi. destruct Hi as (a & b & -> & _); eauto. }
+    destruct (J2 _ _ _ Hn) as [L1 _]. rewrite E in L1. rewrite pos_split in L1.
+    unfold instr_of. simpl. unfold u16 in *. lia.
+  - rewrite iop_instr_of. intros Hf. destruct i as [o args]. simpl in Hf. subst o.
+    assert (args = []) as -> by (unfold iok in Hi; simpl in Hi; auto).
+    specialize (Hjf _ Hn). rewrite E in Hjf. rewrite nth_error_app2 in Hjf by lia.
+    replace (S (length pre) - length pre) with 1 in Hjf by lia. simpl in Hjf.
+    destruct post as [|i2 post2]; [discriminate|]. inversion Hjf; subst i2.
+    assert (Hcode : code F = flat (pre ++ [(OpJumpFinally, [])]) ++ enc (OpReturn, []) ++ flat post2).
+    { rewrite (m_code _ _ _ HM), Hc, E. rewrite !flat_app, !flat_cons. simpl. rewrite <- !app_assoc. reflexivity. }
+    assert (Hlt' : Forall (fun x => (x < 256)%N) (code F)) by (rewrite (m_code _ _ _ HM); auto).
+    pose proof (byte_at_mid (code F) _ _ _ 0 _ Hcode Hlt' eq_refl) as Hb.
+    etransitivity; [|exact Hb]. f_equal. rewrite flat_app, app_length. simpl. lia.
+  - exfalso. rewrite Ehs in Hhs. inversion Hhs as [|x y [_ Hfin] _]; subst.
+    destruct (D _ Hfin) as [b Hb]. rewrite N2Nat.id in Hb. congruence.
+Qed.
+Print Assumptions reachable_stuck_reasons.
+
+(* the same for the concrete flattening: what is left to show for C04 on ALL programs is exactly that no reachable state
+   is stuck for a `benign` (= stack-height / handler-discipline) reason *)
+Corollary reachable_stuck_reasons_flatten (p : lprogram) (f g : func) :
+  compile_program p = COk f -> subfunc g f ->
+  exists F idx, nth_error (flatten f) idx = Some F /\ code F = f_code g /\
+    forall s, reachable false (flatten f) F s -> forall r, step false (flatten f) F s = Stuck r -> benign r.
+Proof.
+  intros H Hg. destruct (flatten_models g f Hg) as (F & idx & Hn & HM).
+  exists F, idx. split; auto. split. apply (m_code _ _ _ HM).
+  intros s Hr r Hst. eapply reachable_stuck_reasons; eauto.
+Qed.
+Print Assumptions reachable_stuck_reasons_flatten.
